@@ -314,6 +314,16 @@ feature_entries("C08", "(enc-safety|slot-owner)", "KF-C08", SAFE, ["ptr2\\+", "a
 known("KF-C08-MPNIL", "C08", r"(enc-safety|process)", None, r"(panic:nil-deref|fatal:out-of-memory|fatal:segv)", r"/internal/encoder\.AppendMarshal(JSON|Text)(Indent)? @ feature:marshalerP-by-value",
       'Marshal((*struct{Y MP})(nil)) panics; see KF-C01-MPNIL', "see KF-C01-MPNIL", "see KF-C01-MPNIL", "see KF-C01-MPNIL")
 
+known("KF-C08-SELFREF", "C08", r"(enc-safety|process)", None, r"(fatal:stack-overflow|fatal:.*|selfref-container-type)", r".* @ selfref-container-type",
+      'type T []T (or map[string]T): json.Marshal(T{T{}}) ends in "fatal error: stack overflow" while compiling the type',
+      "internal/encoder/compiler.go typeToCode: recursion is only broken at struct types (structTypeToCode); a slice, array, map or pointer type that contains itself without a struct in between is followed for ever",
+      "any other failure on the self-referential container types of this sub-case (its own shape tag; every other value is not covered)",
+      "needs a recursion marker and a jump target for non-struct types in the encoder's compiler and in all four interpreters (OpRecursive is tied to struct programs)")
+known("KF-C06-SELFREF", "C06", r"(no-panic|process)", None, r"(fatal:stack-overflow|fatal:.*)", r".* @ selfref-container-type",
+      'type T []T; var v T; json.Unmarshal([]byte("[]"), &v) ends in "fatal error: stack overflow" while compiling the decoder (also map[string]T and []*T)',
+      "internal/decoder/compile.go compile/compileSlice/compileMap/compilePtr: recursion is only broken at struct types (structTypeToDecoder)",
+      "any other failure on the self-referential container types of this sub-case (its own shape tag)",
+      "every container decoder is built from its finished element decoder; breaking the cycle needs a placeholder decoder resolved after compilation, for slices, arrays, maps and pointers")
 known("KF-C08-NOESC", "C08", r"(gc-callback|process)", None, r"(fatal:.+|panic:.+|error|abandoned-stack-copy-encoded|stale-or-foreign-data-encoded)", r"(.* @ noescape-stack-resident|MarshalNoEscape\(&local\))",
       'var d T (a local); json.MarshalNoEscape(&d) where a member\'s MarshalText recurses deep enough to grow the goroutine stack: SIGSEGV in encoder.AppendInt / appendNormalizedHTMLString, or the abandoned stack copy is encoded',
       "encode.go encodeNoEscape: the argument is deliberately kept from escaping, so it may live on the caller's stack; the interpreter holds its address as uintptr, which is not adjusted when a MarshalJSON/MarshalText callback grows (moves) the stack",
